@@ -75,6 +75,10 @@ pub struct Profile {
     /// Ok, Panic, Abort
     pub w_job_out: [u32; 3],
     pub job_dur: Ms,
+    /// API used by sends issued from hooks: Tell, TellT, Ask, AskT
+    pub w_peer_how: [u32; 4],
+    pub peer_depth: u32,
+    pub late_spawn: bool,
 }
 
 impl Profile {
@@ -129,6 +133,9 @@ impl Profile {
             p_end_drop: (1, 2),
             w_job_out: [3, 1, 1],
             job_dur: 6,
+            w_peer_how: [10, 4, 6, 4],
+            peer_depth: 2,
+            late_spawn: false,
         }
     }
 }
@@ -164,6 +171,15 @@ impl<'a> Gen<'a> {
         }
     }
 
+    fn peer_how(&mut self) -> How {
+        match self.ch.weighted(&self.p.w_peer_how) {
+            0 => How::Tell,
+            1 => How::TellT(self.timeout()),
+            2 => How::Ask,
+            _ => How::AskT(self.timeout()),
+        }
+    }
+
     fn timeout(&mut self) -> Ms {
         let i = self.ch.below(self.p.timeouts.len().max(1) as u32) as usize;
         self.p.timeouts.get(i).copied().unwrap_or(10)
@@ -186,7 +202,7 @@ impl<'a> Gen<'a> {
             let us = self.ch.range(0, self.p.spin_us);
             v.push(Step::Spin(us));
         }
-        if self.p.peer != Peer::None && depth < 2 && self.ch.chance(p_peer.0, p_peer.1) {
+        if self.p.peer != Peer::None && depth < self.p.peer_depth && self.ch.chance(p_peer.0, p_peer.1) {
             let tgt = match self.p.peer {
                 Peer::Dag => {
                     if owner + 1 < self.n_actors {
@@ -199,7 +215,7 @@ impl<'a> Gen<'a> {
                 Peer::None => None,
             };
             if let Some(to) = tgt {
-                let how = self.how(false);
+                let how = self.peer_how();
                 let msg = self.msg(to, depth + 1, false);
                 v.push(Step::Send { to, how, msg: Box::new(msg) });
                 if self.ch.chance(1, 3) {
@@ -400,7 +416,7 @@ impl<'a> Gen<'a> {
         let actors = (0..n).map(|i| self.actor(i)).collect();
         let nc = self.ch.range(self.p.clients.0, self.p.clients.1) as usize;
         let clients = (0..nc).map(|c| self.client(c)).collect();
-        Scenario { actors, clients, routing, sampler: self.p.sampler, note: self.p.name.to_string() }
+        Scenario { actors, clients, routing, sampler: self.p.sampler, late_spawn: self.p.late_spawn, note: self.p.name.to_string() }
     }
 }
 
